@@ -272,6 +272,9 @@ func cmdRun(args []string) int {
 			for _, u := range scan.Uncovered {
 				fmt.Printf("INCONCLUSIVE property=C07 harness=map-range-scan reason=uncovered map range in %s (no harness, no recorded argument)\n", u)
 			}
+			for _, u := range scan.GoUncovered {
+				fmt.Printf("INCONCLUSIVE property=C07 harness=map-range-scan reason=goroutines started in %s: completion order is a source of nondeterminism that no harness covers and no recorded argument discharges\n", u)
+			}
 			for _, u := range scan.PointerPrint {
 				fmt.Printf("INCONCLUSIVE property=C07 harness=map-range-scan reason=%%p verb (pointer value printed) at %s\n", u)
 			}
